@@ -25,7 +25,7 @@ RULE_TEXT = ("Generated workflows started through _WorkflowService.start_workflo
 COMPONENTS = {"real": ["server runtime stack, _WorkflowService, SqliteWorkflowStore/MemoryWorkflowStore, SqliteStateStore, engine"],
               "stub": ["llama_index_instrumentation"], "sim": ["loop, clocks, SQLite seam (fault injection at statement level)"]}
 ASSUMPTIONS = ["timeout outcome is stored as failed with an error (server mapping)", "persistent store failure beyond the retry budget is only checked for never-regress"]
-EXPECTED_PROBES = ["outcome:completed", "outcome:failed", "outcome:cancelled", "store-fault-fired", "idle-released-before-end"]
+EXPECTED_PROBES = ["spaced-transient-faults", "outcome:completed", "outcome:failed", "outcome:cancelled", "store-fault-fired", "idle-released-before-end"]
 LEVEL_TEXT = "Seeded exploration of outcomes x store-fault placements x idle-release timings; oracle on the stored handler row."
 LEVEL_NOTE = "Trusted: simulator loop, SQLite seam, a raw sqlite3 read of the handlers table at stable instants."
 
@@ -44,9 +44,18 @@ async def scenario(world, spec):
     wf = inc.add_workflow("wf", spec)
     await inc.start()
     # store faults on the handlers table
-    mode = world.tape.choice(["none", "none", "transient", "transient", "persistent"], "fault.mode")
+    mode = world.tape.choice(["none", "none", "transient", "transient", "persistent", "spaced"], "fault.mode")
     world._fault_mode = mode
-    if mode != "none" and world.backend == "sqlite":
+    if mode == "spaced" and world.backend == "sqlite":
+        # several separate writes each hit ONE transient error (never two in a row): every one of them is within the
+        # per-write retry budget, however many there have been before
+        world._fault_mode = "transient"
+        sk = world.tape.rng_int(0, 2, "fault.skip")
+        for _ in range(world.tape.rng_int(3, 4, "fault.spaced.n")):
+            SEAM.fault_plan.append({"table": "handlers", "verb": None, "n": 1, "skip": sk, "inc": 1})
+            sk += world.tape.rng_int(1, 3, "fault.gap")
+        world.probe("spaced-transient-faults")
+    elif mode != "none" and world.backend == "sqlite":
         n = world.tape.rng_int(1, 2, "fault.n") if mode == "transient" else 5
         SEAM.fault_plan.append({"table": "handlers", "verb": None, "n": n, "skip": world.tape.rng_int(0, 4, "fault.skip"), "inc": 1})
     status_log = []
